@@ -513,7 +513,9 @@ def g_esds(c):
     flags |= c.pick('priority', [0, 31])
     es += u8(flags) + tail + ocr
     # extension descriptors (user private tags) may follow; a large one needs a multi-byte sizeOfInstance
-    ext = c.pick('extension', [b'', descr(0x80, bytes(range(200)), form), descr(0x80, b'', form)])
+    # sizes around the 7-bit group boundaries: 127 is the largest one-byte size, 128 the smallest two-byte size
+    ext = c.pick('extension', [b'', descr(0x80, bytes(range(200)), form), descr(0x80, b'', form), descr(0x80, bytes(127), form),
+                               descr(0x80, bytes(128), form), descr(0x80, bytes(16383), form), descr(0x80, bytes(16384), form)])
     return fullbox(b'esds', 0, 0, descr(3, es + dcd + sl + ext, form), c)
 
 
